@@ -201,7 +201,7 @@ pub fn generate(seed: u64, tier: Tier) -> Case {
                             .flat_map(|it| {
                                 let mut v = vec![it.name.clone()];
                                 if matches!(&it.kind, ItemKind::Type { vftable: Some(_), .. }) {
-                                    v.push(format!("{}Vftable", it.name));
+                                    v.push(crate::inventory::vftable_name(&it.name));
                                 }
                                 v
                             })
@@ -399,7 +399,7 @@ pub fn generate(seed: u64, tier: Tier) -> Case {
                         let ty = if !owners.is_empty() && rng.chance(1, 3) {
                             let o = *rng.pick(&owners);
                             let om = p.items[o].module;
-                            let vname = format!("{}Vftable", p.items[o].name);
+                            let vname = crate::inventory::vftable_name(&p.items[o].name);
                             let line = if rng.chance(1, 2) {
                                 format!("use {}::{};", p.modules[om].item_path(), vname)
                             } else {
